@@ -1,5 +1,6 @@
 import PortusModel.Props.C06
 import PortusModel.Props.C06Acts
+import PortusModel.Props.C06Uid
 #print axioms Portus.C06.updatefield_staged
 #print axioms Portus.C06.updatefield_acts
 #print axioms Portus.C06.changeprog_staged
@@ -22,3 +23,9 @@ import PortusModel.Props.C06Acts
 #print axioms Portus.C06.unrepresentable_fails_in
 #print axioms Portus.C06.updsMatchB_iff
 #print axioms Portus.C06.instrsMatchB_iff
+#print axioms Portus.C06.first_uid_is_marker
+#print axioms Portus.C06.later_uid_not_marker
+#print axioms Portus.C06.install_nonmarker_keeps
+#print axioms Portus.C06.install_marker_forgets
+#print axioms Portus.C06.fresh_history_keeps
+#print axioms Portus.C06.installProgram_keeps
